@@ -21,12 +21,12 @@ import (
 type kv struct{ k, v string }
 
 type gReq struct {
-	route  string
-	method string
-	path   string
-	query  []kv // v == "\x00": flag without value
-	header []kv
-	body   string
+	route   string
+	method  string
+	path    string
+	query   []kv // v == "\x00": flag without value
+	header  []kv
+	body    string
 	lenMode string // "" exact | missing | negative | nonnumeric | plus1
 }
 
@@ -279,7 +279,12 @@ func c09Menu() []deviation {
 		"<Delete><Quiet>maybe</Quiet></Delete>", "<Delete></Delete>",
 		"<VersioningConfiguration><Status>Suspended</Status></VersioningConfiguration>", "<VersioningConfiguration><Status>Sometimes</Status></VersioningConfiguration>",
 		"<VersioningConfiguration><Status>Enabled</Status><MfaDelete>Enabled</MfaDelete></VersioningConfiguration>", "<VersioningConfiguration/>",
-		formNoKey, formTwoS, strings.Repeat("\xff\x00garbage", 500))
+		formNoKey, formTwoS, strings.Repeat("\xff\x00garbage", 500),
+		// aws-chunked streams that end early: inside a chunk, inside a header, before the terminator
+		"10;chunk-signature="+strings.Repeat("0", 64)+"\r\nhello",
+		"5;chunk-signature="+strings.Repeat("0", 64)+"\r\nhello",
+		"5;chunk-signature="+strings.Repeat("0", 64)+"\r\nhello\r\n0;chunk-sig",
+		"5;chunk-sig", "ffffffffffffffff;chunk-signature="+strings.Repeat("0", 64)+"\r\nhello", "-5;chunk-signature="+strings.Repeat("0", 64)+"\r\nhello")
 	return m
 }
 
@@ -398,13 +403,34 @@ func c09Plans(c *engine.Ctx) []c09Plan {
 	versioned := c09State{name: "versioned", setup: c09SetupVersioned(false)}
 	suspended := c09State{name: "suspended", setup: c09SetupVersioned(true)}
 	uploads := c09State{name: "uploads", setup: c09SetupUploads}
+	uploadsClosed := c09State{name: "uploads-closed", setup: func(w *drv.World, vars map[string]string) error {
+		if err := c09SetupUploads(w, vars); err != nil {
+			return err
+		}
+		// an aborted and a completed upload on keys that sort after the pending ones
+		for _, k := range []string{"y", "z"} {
+			r := w.Do(drv.Req{Method: "POST", Path: "/aaa/" + k, Query: "uploads"})
+			n := r.XML()
+			if n == nil {
+				return fmt.Errorf("setup: initiate %s: %s", k, r.Short())
+			}
+			id := n.T("UploadId")
+			if k == "z" {
+				w.Do(drv.Req{Method: "DELETE", Path: "/aaa/z", Query: drv.Q("uploadId", id)})
+			} else {
+				w.Do(drv.Req{Method: "PUT", Path: "/aaa/y", Query: drv.Q("uploadId", id, "partNumber", "1"), Body: []byte("yy")})
+				w.Do(drv.Req{Method: "POST", Path: "/aaa/y", Query: drv.Q("uploadId", id), Body: []byte("<CompleteMultipartUpload><Part><PartNumber>1</PartNumber><ETag>" + drv.ETagOf([]byte("yy")) + "</ETag></Part></CompleteMultipartUpload>")})
+			}
+		}
+		return nil
+	}}
 	var plans []c09Plan
 	kinds := drv.MemFsKinds
 	if !quick(c) {
 		kinds = drv.AllKinds
 	}
 	for _, k := range kinds {
-		states := []c09State{empty, objects, uploads}
+		states := []c09State{empty, objects, uploads, uploadsClosed}
 		if k == drv.Mem {
 			states = append(states, versioned, suspended)
 		}
